@@ -42,10 +42,38 @@ def aliased (f : String) : Option (Int → String) :=
     | some g => some (fun a => g a a a)
     | none => none
 
-/-- size types of the harness enums -/
+/-- size types of the harness enums (the unsigned counterpart of the underlying type) -/
 def enumSizeTy : String → Option IntTy
   | "u8" => some IntTy.u8 | "u16" => some IntTy.u16 | "u32" => some IntTy.u32 | "u64" => some IntTy.u64
+  | "i8" => some IntTy.u8 | "i32" => some IntTy.u32
   | _ => none
+
+/-- `interval_distance` on `int32_t` / `int64_t`: outside this guard (some difference of two of the four operands is not
+representable) the C++ may overflow depending on its control flow; the harness answers "guard" by the same rule and
+does not call the function. -/
+def guard4 (f : String) (a b c d : Int) : Bool :=
+  let t? := if f = "interval_distance_i32" then some IntTy.i32 else if f = "interval_distance_i64" then some IntTy.i64 else none
+  match t? with
+  | none => true
+  | some t => [a, b, c, d].all (fun x => [a, b, c, d].all (fun y => decide (t.InRange (x - y))))
+
+def guarded4 (f : String) (g : Int → Int → Int → Int → String) : Int → Int → Int → Int → String :=
+  fun a b c d => if guard4 f a b c d then g a b c d else "guard"
+
+/-- Integral types that are not one of the eight fixed-width typedefs but have the representation of one of them
+(LP64 Linux): `long long`, `unsigned long long`, plain `char` (signed), `wchar_t` (int), `char8_t`, `char16_t`,
+`char32_t`.  `truncation_check_ll_i32` is looked up as `truncation_check_i64_i32`: the instantiation has the same
+clang AST up to the spelling of the type. -/
+def canonTy : String → String
+  | "ll" => "i64" | "ull" => "u64" | "ch" => "i8" | "wc" => "i32" | "c8" => "u8" | "c16" => "u16" | "c32" => "u32"
+  | t => t
+
+def canonName (f : String) : String :=
+  match f.splitOn "_" with
+  | ["truncation", "check", d, s] => "truncation_check_" ++ canonTy d ++ "_" ++ canonTy s
+  | _ => f
+
+def lookup1 (f : String) : Option (Int → String) := table1.lookup (canonName f)
 
 def handle (toks : List String) : String :=
   match toks with
@@ -55,11 +83,11 @@ def handle (toks : List String) : String :=
     | none => "bad-op"
   | ["call", f, a, b, c, d] =>
     match table4.lookup f, a.toInt?, b.toInt?, c.toInt?, d.toInt? with
-    | some g, some a, some b, some c, some d => g a b c d
+    | some g, some a, some b, some c, some d => guarded4 f g a b c d
     | _, _, _, _, _ => "bad-op"
   | ["list4", f, as] =>
     match table4.lookup f, parseIntList as with
-    | some g, some as => "D " ++ hex64 (fold4 g as)
+    | some g, some as => "D " ++ hex64 (fold4 (guarded4 f g) as)
     | _, _ => "bad-op"
   | ["alias", f, a] =>
     match aliased f, a.toInt? with
@@ -82,10 +110,10 @@ def handle (toks : List String) : String :=
   | ["enumsize", u, m] =>
     -- enum_::size<E> = integral_constant<size_type<E>, enum_to_int<size_type<E>>(max_value<E>) + 1U>
     match enumSizeTy u, m.toInt? with
-    | some t, some m => if t.InRange m ∧ t.InRange (m + 1) then toString (m + 1) else "bad-op"
+    | some t, some m => if 0 ≤ m ∧ t.InRange (m + 1) then toString (m + 1) else "bad-op"
     | _, _ => "bad-op"
   | ["call", f, a] =>
-    match table1.lookup f, a.toInt? with
+    match lookup1 f, a.toInt? with
     | some g, some a => g a
     | _, _ => "bad-op"
   | ["call", f, a, b] =>
@@ -97,7 +125,7 @@ def handle (toks : List String) : String :=
     | some g, some a, some b, some c => g a b c
     | _, _, _, _ => "bad-op"
   | ["range1", f, lo, hi] =>
-    match table1.lookup f, lo.toInt?, hi.toInt? with
+    match lookup1 f, lo.toInt?, hi.toInt? with
     | some g, some lo, some hi => "D " ++ hex64 (fold1 g (irange lo hi))
     | _, _, _ => "bad-op"
   | ["range2", f, alo, ahi, blo, bhi] =>
@@ -109,7 +137,7 @@ def handle (toks : List String) : String :=
     | some g, some lo, some hi => "D " ++ hex64 (fold3 g (irange lo hi))
     | _, _, _ => "bad-op"
   | ["list1", f, as] =>
-    match table1.lookup f, parseIntList as with
+    match lookup1 f, parseIntList as with
     | some g, some as => "D " ++ hex64 (fold1 g as)
     | _, _ => "bad-op"
   | ["list2", f, as, bs] =>
